@@ -11,7 +11,7 @@ DEFAULT_NOTE = ('Trusted: Coq 8.16.1 kernel (incl. vm_compute; no native_compute
                 'constants regenerated from the source on every run, and the Go-side property oracle. See DESIGN.md 3.7.')
 
 LEVEL_TEXT = {
- 'C01': 'Coq theorems over the faithful MemMapFs model (coq/Model/MemFs.v): child-index invariant WF preserved by every well-formed op sequence, failed calls are no-ops, listing/paging, rename moves subtrees, spelling (clean) invariance, and a simulation against an independent POSIX spec (coq/Model/Posix.v). Tie: every generated sequence (well-formed and malformed) is run on the real MemMapFs and on the extracted model incl. full dumps of the path map and child index; oracle: the same well-formed program on OsFs in a fresh temp dir (step results + final Stat/ReadDir/ReadFile sweep).',
+ 'C01': 'Coq theorems over the faithful MemMapFs model (coq/Model/MemFs.v): child-index invariant WF preserved by every well-formed op sequence, failed calls are no-ops, listing/paging, rename moves subtrees, spelling (clean) invariance, a simulation against an independent POSIX spec (coq/Model/Posix.v), and — for every state and every name — nothing is created below a regular file (ENOTDIR, only the clock moves). Tie: every generated sequence (well-formed and malformed) is run on the real MemMapFs and on the extracted model incl. full dumps of the path map and child index; oracle: the same well-formed program (creating calls below a regular file included) on OsFs in a fresh temp dir (step results + final Stat/ReadDir/ReadFile sweep).',
  'C02': 'Coq refinement theorem: for all contents, handle sets and op sequences the model of mem.File equals the flat byte-array spec (ByteFile.v) under projection, never panics, inert handles never change data. Tie: differential run of mem.File (direct handles and through MemMapFs) against model and spec, exhaustive over short sequences.',
  'C03': 'PARTIAL. Coq model of the lock discipline of memmap.go/mem/file.go (sections between lock operations) with theorems over all schedules (no deadlock, no unlock error, lockset, quiescent consistency on the single-section fragment); the Go memory model and scheduler are outside the model: supported by a -race stress harness in child processes, a lock-sequence table extracted from the source each run, and a post-quiescence consistency sweep.',
  'C04': 'PARTIAL. Coq theorem: every history of a machine whose calls take effect in one atomic step of the sequential model is linearizable (any threads, any schedule); multi-section methods are treated by explicit section abstractions. Tie/search: concurrent histories of the real MemMapFs are recorded and searched for a linearization against the EXTRACTED sequential model (Wing-Gong in OCaml) plus direct checks of the exactly-one-winner and torn-read clauses.',
